@@ -156,6 +156,70 @@ fn nested_scalar(f: Fmt, shape: Shape, d: usize, core: Option<bool>) -> Vec<u8> 
     }
 }
 
+/// MessagePack only: the same `d` collections around a scalar, but spelled with
+/// other headers than the one-entry fix markers: 16- and 32-bit length headers,
+/// and collections of 16 entries (the nested child among 15 scalar siblings).
+/// The count of collections around the scalar is still exactly `d`.
+pub const MSGPACK_STYLES: [&str; 5] = ["hdr16", "hdr32", "wide_deepest", "wide_outermost", "wide_random"];
+
+pub fn nested_msgpack_styled(shape: Shape, d: usize, style: &str) -> Vec<u8> {
+    let mut rng = Rng::new(match shape {
+        Shape::Random(s) => s,
+        _ => 0,
+    });
+    let kinds: Vec<bool> = (0..d).map(|i| shape.is_array(i, &mut rng)).collect();
+    let mut srng = Rng::new(0x57e1 ^ d as u64);
+    let mut b = Vec::with_capacity(d * 6 + 64);
+    let mut tails: Vec<Vec<u8>> = Vec::with_capacity(d);
+    for (i, a) in kinds.iter().enumerate() {
+        // (header kind: 0 fix, 1 = 16-bit, 2 = 32-bit; entries; position of the child)
+        let (hdr, n, pos) = match style {
+            "hdr16" => (1, 1usize, 0usize),
+            "hdr32" => (2, 1, 0),
+            "wide_deepest" if i + 1 == d => (1, 16, 15),
+            "wide_outermost" if i == 0 => (1, 16, 0),
+            "wide_random" => match srng.below(6) {
+                0 => (1, 16 + srng.below(3), srng.below(16)),
+                1 => (2, 16, srng.below(16)),
+                2 => (1, 1, 0),
+                3 => (2, 1, 0),
+                _ => (0, 1, 0),
+            },
+            _ => (0, 1, 0),
+        };
+        match (hdr, *a) {
+            (0, true) => b.push(0x90 | n as u8),
+            (0, false) => b.push(0x80 | n as u8),
+            (1, true) => b.extend_from_slice(&[0xdc, (n >> 8) as u8, n as u8]),
+            (1, false) => b.extend_from_slice(&[0xde, (n >> 8) as u8, n as u8]),
+            (_, true) => b.extend_from_slice(&[0xdd, 0, 0, (n >> 8) as u8, n as u8]),
+            (_, false) => b.extend_from_slice(&[0xdf, 0, 0, (n >> 8) as u8, n as u8]),
+        }
+        let sibling = |k: usize, out: &mut Vec<u8>| {
+            if !*a {
+                out.extend_from_slice(&[0xa2, b'k', b'a' + k as u8]);
+            }
+            out.push(0x01);
+        };
+        for k in 0..pos {
+            sibling(k, &mut b);
+        }
+        if !*a {
+            b.extend_from_slice(&[0xa1, b'a']);
+        }
+        let mut tail = vec![];
+        for k in pos + 1..n {
+            sibling(k, &mut tail);
+        }
+        tails.push(tail);
+    }
+    b.push(0x01);
+    for t in tails.iter().rev() {
+        b.extend_from_slice(t);
+    }
+    b
+}
+
 /// YAML block-style nesting for the window around the limit (indentation grows,
 /// so only for small depths).
 pub fn nested_yaml_block(shape: Shape, d: usize) -> Vec<u8> {
@@ -224,6 +288,15 @@ pub fn inproc(f: Fmt, shape: Shape, to: Fmt, thorough: bool, acc: &mut Acc) -> O
         let mut inputs = vec![(nested(f, shape, d), "flow"), (nested_core(f, shape, d, true), "flow_empty_core")];
         if f == Fmt::Yaml && d <= 300 && shape != Shape::KeyPosition {
             inputs.push((nested_yaml_block(shape, d), "block"));
+        }
+        if f == Fmt::Msgpack && shape != Shape::KeyPosition && d >= 1 && d <= 100_000 {
+            for st in MSGPACK_STYLES {
+                if st == "wide_random" && d > 10_000 {
+                    continue;
+                }
+                inputs.push((nested_msgpack_styled(shape, d, st), st));
+                acc.count("msgpack_styled_documents");
+            }
         }
         for (input, style) in inputs {
             if input.is_empty() {
@@ -414,9 +487,9 @@ pub fn run(ctx: &Ctx) -> i32 {
         }
     }
     size_hook(&mut acc, ctx.seed, ctx.size(20000, 400000));
-    let rule = format!("{} (source format, nesting shape, target) combinations: shapes arrays / maps / alternating / 2 random mixtures (+ key-position nesting for MessagePack) x 4 targets; depths: a +-6 window around each format's limit (MessagePack 1024, JSON 128, YAML 128, TOML 80; YAML also in block style), 1000..1025, 10^4, 10^5{} ; at every depth slice vs reader(all) vs reader(fixed 7), explicit and detected; the debug and release binaries (default stack; file and stdin, source format given or detected) at the limit, one beyond and far beyond; MessagePack size calculator vs the harness decoder on generated, padded and truncated values; distinct non-trivial = distinct combinations", work.len(), if thorough { ", 10^6 (3*10^4 for YAML)" } else { "" });
+    let rule = format!("{} (source format, nesting shape, target) combinations: shapes arrays / maps / alternating / 2 random mixtures (+ key-position nesting for MessagePack; MessagePack documents also spelled with 16/32-bit length headers and with 16-entry collections on the deepest path) x 4 targets; depths: a +-6 window around each format's limit (MessagePack 1024, JSON 128, YAML 128, TOML 80; YAML also in block style), 1000..1025, 10^4, 10^5{} ; at every depth slice vs reader(all) vs reader(fixed 7), explicit and detected; the debug and release binaries (default stack; file and stdin, source format given or detected) at the limit, one beyond and far beyond; MessagePack size calculator vs the harness decoder on generated, padded and truncated values; distinct non-trivial = distinct combinations", work.len(), if thorough { ", 10^6 (3*10^4 for YAML)" } else { "" });
     ev::finish(
-        Finish { ctx, level: "exploration", rule, assumptions: vec!["YAML depths are capped (parsing is quadratic in depth)".into(), "targets that refuse the document for another reason (TOML with an array root) are left out of the limit comparison".into()], extra, exhaustive: false, min_distinct: 40, must_reach: vec![("binary_status_matches_library".into(), 100), ("binary_runs_debug".into(), 50), ("binary_runs_with_detection".into(), 50), ("size_hook_cases".into(), 1000), ("inproc_msgpack".into(), 100)] },
+        Finish { ctx, level: "exploration", rule, assumptions: vec!["YAML depths are capped (parsing is quadratic in depth)".into(), "targets that refuse the document for another reason (TOML with an array root) are left out of the limit comparison".into()], extra, exhaustive: false, min_distinct: 40, must_reach: vec![("binary_status_matches_library".into(), 100), ("binary_runs_debug".into(), 50), ("binary_runs_with_detection".into(), 50), ("size_hook_cases".into(), 1000), ("inproc_msgpack".into(), 100), ("msgpack_styled_documents".into(), 500)] },
         acc,
     )
 }
